@@ -1142,6 +1142,12 @@ func (c *dtChannel) close(ctx context.Context) error {
 	}
 	c.lk.Unlock()
 
+	// There is no current graphsync request (never opened, or already
+	// cancelled): nothing to wait for
+	if errch == nil {
+		return nil
+	}
+
 	// Wait for the cancel message to complete
 	select {
 	case err := <-errch:
